@@ -378,6 +378,11 @@ func forRof(f *forExpander) forStateFn {
 func forEmitConsumeStream(f *forExpander) forStateFn {
 	for f.nextToken.typ != tokEOF {
 		f.tokens <- f.nextToken
+		if f.nextToken.typ == tokError {
+			// the error token ends the stream: the reader stops after it, and
+			// next() would keep it as the current token for ever
+			return nil
+		}
 		f.next()
 	}
 	return nil
